@@ -96,7 +96,7 @@ def _unsync():
         if tti: props |= {"C06"}
         if "nocap" in name: props |= {"C17"}
         if op == "op_evict_lru" and "within" in name: props |= {"C03"}
-        tier = "thorough" if sym_time or "_n3_" in name else "quick"
+        tier = "thorough" if sym_time or "_n3_" in name or name in ("purge_both_two_of_three_w",) else "quick"
         prim = {"op_get": {"C01", "C12", "C14"}, "op_contains": {"C15"}, "op_iter": {"C16", "C15"},
                 "op_invalidate": {"C07"}, "op_invalidate_all": {"C07", "C10"}, "op_invalidate_if": {"C07", "C10"},
                 "op_evict_lru": {"C04", "C12"}, "op_evict_expired": {"C10", "C03", "C11"}}.get(op, set())
